@@ -149,12 +149,22 @@ def _chunk(job):
             "digests": {}, "samples": [], "faulty_runs": 0, "faultfree_runs": 0,
             "viol_in_faulty": 0, "viol_in_faultfree": 0, "harness_errors": [],
             "leftover_streams": 0, "extra": {}, "known": {}, "known_counts": {},
-            "known_only_runs": 0, "unknown_violating_runs": 0,
+            "known_only_runs": 0, "unknown_violating_runs": 0, "systematic_runs": 0,
         }
-        for run in job["runs"]:
+        if job.get("systematic") is not None:
+            # an enumerated family of plans (every position of a fault / pre-emption,
+            # every configuration of a small space) instead of seeded random ones
+            items = eng.systematic_plans(job["seed"], job["systematic"])
+        else:
+            items = ((run, None) for run in job["runs"])
+        for run, plan in items:
             try:
-                plan, res = make_and_run_hermetic(eng, job["seed"], run,
-                                                  deep=job.get("deep", False))
+                if plan is None:
+                    plan, res = make_and_run_hermetic(eng, job["seed"], run,
+                                                      deep=job.get("deep", False))
+                else:
+                    res = run_plan_hermetic(eng, plan, deep=job.get("deep", False))
+                    out["systematic_runs"] += 1
             except Exception as e:
                 out["harness_errors"].append({"run": run, "error": repr(e)[:2000]})
                 continue
@@ -240,8 +250,9 @@ class HarnessFailure(Exception):
 
 def run_batch(engine_name, opts, seed, runs, workers=None, chunk=40, deep=False,
               want_plans=0, max_viol_total=6, min_budget=300, wall_limit_s=None,
-              progress=None):
-    """Execute run numbers ``runs`` (iterable of ints).  Returns merged result."""
+              progress=None, systematic=()):
+    """Execute run numbers ``runs`` (iterable of ints) plus the enumerated families
+    described by ``systematic`` (one job each).  Returns merged result."""
     workers = workers or min(16, os.cpu_count() or 1)
     runs = list(runs)
     jobs = []
@@ -249,7 +260,11 @@ def run_batch(engine_name, opts, seed, runs, workers=None, chunk=40, deep=False,
         jobs.append({"seed": seed, "runs": runs[i:i + chunk], "deep": deep,
                      "want_plans": 1 if (want_plans and i // chunk < want_plans) else 0,
                      "max_viol": 2, "min_budget": min_budget})
+    for spec in systematic:
+        jobs.append({"seed": seed, "runs": [], "systematic": spec, "deep": deep,
+                     "want_plans": 0, "max_viol": 2, "min_budget": min_budget})
     merged = {
+        "systematic_runs": 0,
         "runs": 0, "events": 0, "ops": 0, "probes": {}, "faults": {}, "stats": {},
         "sigs": set(), "sigs_nt": set(), "where": set(), "violating_runs": 0,
         "violations": [],
@@ -273,7 +288,8 @@ def run_batch(engine_name, opts, seed, runs, workers=None, chunk=40, deep=False,
             done += 1
             for k in ("runs", "events", "ops", "violating_runs", "faulty_runs",
                       "faultfree_runs", "viol_in_faulty", "viol_in_faultfree",
-                      "leftover_streams", "known_only_runs", "unknown_violating_runs"):
+                      "leftover_streams", "known_only_runs", "unknown_violating_runs",
+                      "systematic_runs"):
                 merged[k] += r[k]
             for k in ("probes", "faults", "stats", "extra", "known_counts"):
                 _add(merged[k], r[k])
